@@ -532,13 +532,16 @@ func (w *World) randomBehaviour(r *rand.Rand, maxOrd, depth int, id string, migr
 		s.Status.CurRev = in.Revs[0].Name
 		s.Status.UpdRev = in.Revs[nrev-1].Name
 	}
+	if migration {
+		s.Status.Collisions = int32(r.Intn(2)) // the built-in set had a name collision once (its revisions predate it)
+	}
 	{
 		if s.Slots == nil {
 			s.Slots = []int{}
 		}
 		sb, _ := json.Marshal(map[string]interface{}{"replicas": s.Replicas, "slots": s.Slots, "policy": s.Policy, "strat": s.Strat, "part": s.Part,
 			"tmpl": s.Tmpl, "paused": false, "histLimit": s.HistLimit, "gen": 1, "nclaims": s.NClaims,
-			"status": map[string]interface{}{"obsGen": 0, "replicas": 0, "ready": 0, "current": 0, "updated": 0, "collisions": 0,
+			"status": map[string]interface{}{"obsGen": 0, "replicas": 0, "ready": 0, "current": 0, "updated": 0, "collisions": s.Status.Collisions,
 				"curRev": s.Status.CurRev, "updRev": s.Status.UpdRev}})
 		var sm map[string]interface{}
 		json.Unmarshal(sb, &sm)
